@@ -99,6 +99,10 @@ def jobs(pid, tier):
         J.append(Job('dddmp', dict(M=2, nroots=1), need_outcomes=['loaded']))
         J.append(Job('dddmp', dict(M=3 if q else 4, nroots=2, headers=['v0gap', 'v3'] if q else ['v0', 'v0gap', 'v1', 'v3']),
                      need_outcomes=['loaded']))
+    if pid == 'C19':
+        for w in ('cudd', 'cudd_zdd', 'sylvan', 'buddy'):
+            J.append(Job('pyx', dict(which=w), need_outcomes=['compared'], procs=4))
+            J.append(Job('pyx_refs', dict(which=w), need_outcomes=['lifecycle'], procs=2))
     return J
 
 
